@@ -1,3 +1,4 @@
+import re
 """A14 - the operator/construct chain: Mamba spelling -> Token -> Node -> NodeTy -> Core -> Python spelling.
 
 Every stage is a `match` whose arms rebuild a variant of the next enum from the fields of the current one. `struct_arms` turns such
@@ -127,6 +128,42 @@ def unique_target(rows, variant):
     return next(iter(t)) if len(t) == 1 else None
 
 
+def _parsed_operand(syn, f, block, st, name):
+    """is `name` - the value of a field of the node `st` - what the parser parsed after the operator token?
+    (a) a local of the same block (or of the function) initialised from `<it>.parse(..)`; or
+    (b) the parameter of a closure `|name| Node::V { .. }` handed to a private helper of the module, which applies that parameter
+        to a local of its own initialised from `<it>.parse(..)` (the macro `un_op!` written as a function)"""
+    def parsed_locals(body):
+        return {src(m["pat"]) for m in walk(body) if m.get("k") == "local" and m.get("init") is not None
+                and any(c.get("k") == "mcall" and c["m"] == "parse" for c in walk(m["init"]))}
+    if not re.fullmatch(r"[a-z_]\w*", name or ""):
+        return False
+    if name in parsed_locals(block) or name in parsed_locals(f["body"]):
+        # not rebound by a closure parameter in between
+        if not any(c.get("k") == "closure" and any(src(p_) == name for p_ in c.get("params", c.get("inputs", []))) and any(x is st for x in walk(c["body"])) for c in walk(block)):
+            return True
+    for call in walk(block):
+        if call.get("k") != "call" or call["f"].get("k") != "path":
+            continue
+        for i, a in enumerate(call["args"]):
+            a_ = strip(a)
+            while a_.get("k") in ("ref", "paren"):
+                a_ = strip(a_["e"])
+            if a_.get("k") != "closure" or not any(x is st for x in walk(a_["body"])):
+                continue
+            ps = [src(p_) for p_ in a_.get("params", a_.get("inputs", []))]
+            if ps != [name]:
+                return False
+            helper = next((h for h in syn.fns if h["name"] == call["f"]["p"] and h["mod"] == f["mod"] and h.get("body")), None)
+            if helper is None or i >= len(helper["sig"]["inputs"]):
+                return False
+            pname = src(helper["sig"]["inputs"][i]["pat"])
+            loc_ = parsed_locals(helper["body"])
+            applied = [c for c in walk(helper["body"]) if c.get("k") == "call" and c["f"].get("k") == "path" and c["f"]["p"] == pname]
+            return bool(applied) and all(len(c["args"]) == 1 and src(strip(c["args"][0])) in loc_ for c in applied)
+    return False
+
+
 def parser_operator_table(facts):
     """rows (token, node variant, {node field: source expr}, eaten token, fn) for every operator the expression parser builds:
     binary: `match lex.token { Token::T => { it.eat(&Token::T, ..)?; let right = ..; Node::V { left: <first operand>, right } } }`
@@ -157,6 +194,8 @@ def parser_operator_table(facts):
                     tok = c[len("it.eat_if(&Token::"):-len(").is_some()")]
                     structs = [m for m in walk(n["then"]) if m.get("k") == "struct" and m["p"].startswith("Node::")]
                     for st in structs:
-                        rows.append({"token": tok, "node": st["p"].split("::")[1], "fields": {k: src(strip(v)) for k, v in st["fields"]},
-                                     "eaten": [tok], "fn": f, "kind": "unary", "parsed_after": ["factor"]})
+                        fields = {k: src(strip(v)) for k, v in st["fields"]}
+                        rows.append({"token": tok, "node": st["p"].split("::")[1], "fields": fields,
+                                     "eaten": [tok], "fn": f, "kind": "unary", "parsed_after": ["factor"],
+                                     "operand_parsed": {k: _parsed_operand(syn, f, n["then"], st, v) for k, v in fields.items()}})
     return rows
